@@ -29,6 +29,8 @@ THEOREMS = {
         "Model.cascadeRun_append", "Model.cascadeRun_nil_block",
         "Model.white_chunking", "Model.red_chunking", "Model.alpha_chunking", "Model.white_sample_runs",
         "sectionRun_direct_form", "sectionRun_first"],
+    # the machine-translated cascade (Gen/Noise.lean, regenerated from speckit/noise.py) IS the hand model
+    "SpecKitV.Props.NoiseGen": ["gen_section_loop", "gen_cascade_eq_model", "gen_cascade_chunking"],
 }
 CONTRACTS = [
     "numpy Generator.normal(0, rms, n) returns rms * (the next n standard-normal draws), draw for draw, independent of how the "
